@@ -132,7 +132,7 @@ class RenderContext:
             obj = self.scope[root]
         except (KeyError, TypeError, IndexError):
             if default == UNDEFINED:
-                hint = f"{root!r} is undefined"
+                hint = f"{_root_str(root)!r} is undefined"
                 return self.env.undefined(root, hint=hint, token=token)
             return default
 
@@ -167,7 +167,7 @@ class RenderContext:
             obj = self.scope[root]
         except (KeyError, TypeError, IndexError):
             if default == UNDEFINED:
-                hint = f"{root!r} is undefined"
+                hint = f"{_root_str(root)!r} is undefined"
                 return self.env.undefined(root, hint=hint, token=token)
             return default
 
@@ -490,9 +490,18 @@ builtin = BuiltIn()
 RE_PROPERTY = re.compile(r"[\u0080-\uFFFFa-zA-Z_][\u0080-\uFFFFa-zA-Z0-9_-]*")
 
 
+def _root_str(root: object) -> str:
+    """Return a root path segment for use in an error message."""
+    if isinstance(root, str):
+        return root
+    # An indirect root that didn't resolve to a name. It might not have a string
+    # representation, like a very large integer.
+    return f"<{root.__class__.__name__}>"
+
+
 def _segments_str(segments: list[object]) -> str:
     it = iter(segments)
-    buf = [str(next(it))]
+    buf = [_root_str(next(it))]
     for segment in it:
         if isinstance(segment, str):
             if RE_PROPERTY.fullmatch(segment):
